@@ -56,10 +56,14 @@ GROUPS["fontir"] = {
 GROUPS["fontbe"] = {
     "package": "fontbe",
     "dep_crates": ["fontbe"],
+    # T1 on os2.rs alone (its HashSet<u32> kernels), plus the declared type of the two MiscMetadata fields it consumes
+    "t1_files": ["fontbe/src/os2.rs"],
+    "t1_fields": {"fontir/src/ir/static_metadata.rs": ["unicode_range_bits", "codepage_range_bits"]},
     "harness": {
         "fontbe/src/glyphs.rs": "harness/fontbe/glyphs.rs",
         "fontbe/src/metrics_and_limits.rs": "harness/fontbe/metrics_and_limits.rs",
         "fontbe/src/os2.rs": "harness/fontbe/os2.rs",
+        "fontbe/src/os2/max_context.rs": "harness/fontbe/max_context.rs",
     },
 }
 GROUPS["fea-rs"] = {
@@ -68,6 +72,7 @@ GROUPS["fea-rs"] = {
     "dep_crates": ["fea-rs"],
     "harness": {
         "fea-rs/src/parse/lexer.rs": "harness/fea-rs/lexer.rs",
+        "fea-rs/src/parse/lexer/token_set.rs": "harness/fea-rs/token_set.rs",
     },
 }
 
@@ -214,6 +219,21 @@ H("c17_metrics_builder_4", "C17", "fontbe", "metrics_and_limits", tier="thorough
   bound="4 glyphs, all inputs symbolic", oracle="as c17_metrics_builder_3")
 H("c17_metrics_builder_1", "C17", "fontbe", "metrics_and_limits", funcs=[M + "::MetricsBuilder::update", M + "::MetricsBuilder::build"],
   bound="1 glyph, all inputs symbolic", oracle="as c17_metrics_builder_3")
+O2 = "fontbe/src/os2.rs"
+H("c17_os2_unicode_table_sorted_disjoint", "C17", "fontbe", "os2", funcs=[O2 + "::UNICODE_RANGES"],
+  bound="the concrete table (169 rows); unwind 180", oracle="rows well-formed, sorted, pairwise disjoint, bits < 128 (what the binary search relies on)")
+H("c17_os2_unicode_range_bits_of_codepoint", "C17", "fontbe", "os2", funcs=[O2 + "::add_unicode_range_bits"],
+  bound="any codepoint <= 0x10FFFF; unwind 180", oracle="set == {bit of the row containing it (linear-scan reference)} + {57 iff beyond the BMP}")
+H("c17_os2_unicode_range_packing", "C17", "fontbe", "os2", funcs=[O2 + "::apply_unicode_range"],
+  bound="two assigned bits < 128, symbolic probe bit", oracle="word b/32 bit b%32 set iff b assigned")
+H("c17_os2_codepage_range_packing", "C17", "fontbe", "os2", funcs=[O2 + "::apply_codepage_range"],
+  bound="two assigned bits < 64, symbolic probe bit", oracle="word b/32 bit b%32 set iff b assigned; both fields present")
+H("c17_os2_min_max_char_index", "C17", "fontbe", "os2", funcs=[O2 + "::apply_min_max_char_index"],
+  bound="three codepoints <= 0x10FFFF", oracle="first = min capped at 0xFFFF, last = max capped at 0xFFFF")
+H("c17_glyph_limits_max_per_field", "C17", "fontbe", "metrics_and_limits", funcs=[M + "::GlyphLimits::max"],
+  bound="two limit triples, all six u16 symbolic", oracle="field-wise maximum (maxCompositePoints / maxCompositeContours / maxComponentDepth may come from different glyphs)")
+H("c17_max_context_of_rule", "C17", "fontbe", "os2::max_context", funcs=["fontbe/src/os2/max_context.rs::max_context_of_rule"],
+  bound="input and lookahead counts symbolic (sum < 65535)", oracle="contextual = input; chained = input + lookahead; reverse chained = 1 + lookahead")
 H("c19_metrics_update_no_overflow", ["C19", "C17"], "fontbe", "metrics_and_limits", flags=CHECKED_FLAGS, funcs=[M + "::MetricsBuilder::update"],
   bound="advance u16, lsb i16 full range, extent 0..65535", oracle="no arithmetic overflow; rsb/extent clamp to i16 as documented")
 
@@ -226,6 +246,13 @@ H("c13_lexer_lossless_ascii_n4", "C13", "fea-rs", "parse::lexer", termination_cl
 H("c13_lexer_lossless_ascii_n5", "C13", "fea-rs", "parse::lexer", tier="thorough", termination_claim=True, funcs=_lexfuncs, bound="every window of 5 ASCII bytes, every lexer state; unwind 8", oracle=_lexoracle)
 H("c13_lexer_char_boundaries_2byte", "C13", "fea-rs", "parse::lexer", termination_claim=True, funcs=_lexfuncs, bound="ASCII byte, one 2-byte char (C2..DF 80..BF), ASCII byte; every lexer state",
   oracle="as above, and no token boundary falls inside the 2-byte char")
+TS = "fea-rs/src/parse/lexer/token_set.rs"
+H("c13_token_set_kinds_fit_the_mask", "C13", "fea-rs", "parse::lexer::token_set", funcs=[TS + "::mask", "fea-rs/src/parse/lexer/lexeme.rs::Kind"],
+  bound="every Kind (symbolic discriminant 0..=Tombstone)", oracle="every discriminant < 128; mask(k) is the single bit k (no shift overflow: dev panic / release aliasing)")
+H("c13_token_set_membership_exact", "C13", "fea-rs", "parse::lexer::token_set", funcs=[TS + "::TokenSet::{new,add,union,contains,from}"],
+  bound="four symbolic Kinds", oracle="contains(p) <=> p was put in, for singleton / new / add / union / EMPTY")
+H("c13_token_set_recovery_sets", "C13", "fea-rs", "parse::lexer::token_set", funcs=[TS + "::TokenSet::{SEMI,SEMI_RBRACE,TOP_SEMI,TOP_AND_FEATURE,RULES,STATEMENT,FEATURE_STATEMENT}"],
+  bound="one symbolic Kind", oracle="the composed recovery sets are the unions their names say; Eof and trivia are in none of them")
 H("c13_expecting_path_transitions", "C13", "fea-rs", "parse::lexer", funcs=[L + "::ExpectingPath::transition"], bound="3 states x 5 token kinds",
   oracle="InPath is entered only by `(` directly after `include` (whitespace keeps the armed state)")
 
@@ -279,13 +306,17 @@ PROPERTIES = {
             "assumptions": []},
     "C03": {"outside": "cubic->quadratic conversion (kurbo), point-stream construction and IUP (write-fonts), sub-model selection and gvar assembly (job bodies)",
             "assumptions": ["the claim is the fontc-owned arithmetic: VariationModel delta round trip in the 2-D instantiation + the two composite-path leaf kernels"]},
-    "C16": {"outside": "more than 2 axes / more than one box per region in the box step; the loop of overlay_feature_variations beyond the 2-rule instance; to_condition_set; "
+    "C16": {"outside": "rule layouts beyond the enumerated ones (BV: > 3 rules on 2 axes, > 2 rules on the k/2 grid with 2 axes, > 3 axes, off-grid bounds, several boxes per region outside the catalog); "
+                       "points lying exactly on a bound of a rule box (there both fontTools and fontc let the first record win; measure zero); more than 2 axes in the CBMC box step; to_condition_set; "
                        "design-space normalisation of conditions in fontbe; record sorting in fea-rs; lookup construction",
-            "assumptions": ["the composition of the box step and the rank order into the overlay loop is argued in harness/fontir/feature_variations.rs, not solved, beyond the 2-rule instance"]},
+            "assumptions": ["BV: rule layouts are enumerated, the quantifier over designspace points is decided by z3 and cvc5 (LRA); the reference semantics ('first rule in source order containing the point wins per glyph', "
+                            "'first output box containing the point decides') is the 60-line encoder in kit/boxval/src/main.rs",
+                            "BV known finding: a layout whose output deviates is reported as KNOWN only if a second query proves for all points that the output equals the reference on the fontTools-merged rule list"]},
     "C08": {"outside": "fontbe::avar::to_segment_map and the fvar record fields (did not fit CBMC: > 16 GB), named-instance ranges, CoordConverter::new with symbolic DESIGN values (conditional pushes make map lengths symbolic: > 28 GB), off-grid values",
             "assumptions": ["design-side selection logic of CoordConverter::new is covered on a catalog of 8 concrete design shapes only"]},
     "C07": {"outside": "layouts off the k/4 grid, > 2 axes in K harnesses, LocationSortingHat::key_for with symbolic locations, new_extrapolating",
             "assumptions": []},
 }
 SV_PROPERTIES = {"C07", "C03", "C04"}
+BV_PROPERTIES = {"C16"}
 SCAN_PROPERTIES = {"C19"}
